@@ -12,6 +12,14 @@ def make_type(kind, w, enc, order, var=""):
     """var: '' plain; 'ctx' the encoding also declares context calibrators none of which applies to the packets used here
     (MODE is 0 in them) and no default calibrator: the field is still an uncalibrated one."""
     from space_packet_parser.xtce import calibrators, comparisons, encodings, parameter_types
+    if var in ("xml", "xml-od"):
+        # the type as a document declares it (XML reader; with explicit attributes, or relying on the reader's defaults)
+        from harness import xdoc, xrender
+        if kind == "int":
+            pt = xdoc.ptype_num("int", xdoc.numeric_enc("int", w, enc, order))
+        else:
+            pt = xdoc.ptype_num("float", xdoc.numeric_enc("flt", w, order=order, fmt="mil1750a" if kind == "mil" else "ieee"))
+        return xrender.type_from_xml("T", pt, var == "xml-od")
     kw = {}
     if var == "ctx":
         poly = calibrators.PolynomialCalibrator([calibrators.PolynomialCoefficient(7.0, 0), calibrators.PolynomialCoefficient(3.0, 1)])
@@ -90,8 +98,12 @@ def run(ctx):
         if q and kind == "ieee" and len(bits) == 16 and i % 4:
             continue      # quick: a quarter of the binary16 patterns (all of them in the TLC run and in thorough)
         offsets = offs_all if (not q or len(bits) > 16 or i % 16 == 0) else [0, 1 + i % 7]
+        # a field may sit exactly where a CCSDS header field sits (same offset, same width): it is still decoded from its bits
+        hdr_off = {3: [0], 1: [3, 4], 11: [5], 2: [16], 14: [18], 16: [32, 16]}.get(len(bits), [])
+        if hdr_off and kind == "int" and i % 3 == 0:
+            offsets = list(offsets) + [o for o in hdr_off if o not in offsets]
         for off in offsets:
-            var = "ctx" if (i + off) % 5 == 0 else ("alias" if kind != "int" and (i + off) % 5 == 1 else "")
+            var = "ctx" if (i + off) % 5 == 0 else ("alias" if kind != "int" and (i + off) % 5 == 1 else ("xml", "xml-od", "")[(i + off) % 5 - 2] if (i + off) % 5 >= 2 else "")
             ctx.count(("A", kind, tuple(bits), enc, order, off, var))
             ctx.traces += 1
             try:
@@ -109,7 +121,7 @@ def run(ctx):
             except Exception as e:  # noqa: BLE001
                 prob = f"exception {type(e).__name__}: {e}"
             if prob:
-                ctx.violation(f"C04/replay/{kind}/{enc}/{order}/{'aligned' if off == 0 else 'unaligned'}{('/inapplicable-context-calibrators' if var == 'ctx' else '/legacy-spelling' if var else '')}",
+                ctx.violation(f"C04/replay/{kind}/{enc}/{order}/{'aligned' if off == 0 else 'unaligned'}{('/inapplicable-context-calibrators' if var == 'ctx' else '/legacy-spelling' if var == 'alias' else '/' + var if var else '')}",
                               prob, {"k": kind, "b": bits, "e": enc, "o": order, "off": off, "var": var})
         if kind != "int" and row["r"]["cls"] == "fin" and len(bits) > 16:
             ctx.sample({"direction": "spec->code", "kind": kind, "bits": "".join(map(str, bits)), "order": order, "expected": want}, limit=3)
@@ -143,7 +155,7 @@ def run(ctx):
             if w > 12:
                 for j in range(rng.randrange(4)):
                     bits[rng.randrange(w)] ^= 1
-        var = "ctx" if rng.random() < 0.3 else ("alias" if kind != "int" and rng.random() < 0.3 else "")
+        var = "ctx" if rng.random() < 0.3 else ("alias" if kind != "int" and rng.random() < 0.3 else rng.choice(["", "xml", "xml-od"]))
         try:
             lines.append(line_for(kind, bits, enc, order, off, rng, var))
         except Exception as e:  # noqa: BLE001
@@ -153,7 +165,7 @@ def run(ctx):
     rej = tables.validate_lines(ctx, "Trace_Numeric", lines, "decodes", jobs=16)
     for idx, clause in rej.items():
         ln = lines[idx]
-        ctx.violation(f"C04/trace/{ln['k']}/{clause[0]}/{ln['e']}/{ln['o']}{('/inapplicable-context-calibrators' if ln['var'] == 'ctx' else '/legacy-spelling' if ln['var'] else '')}",
+        ctx.violation(f"C04/trace/{ln['k']}/{clause[0]}/{ln['e']}/{ln['o']}{('/inapplicable-context-calibrators' if ln['var'] == 'ctx' else '/legacy-spelling' if ln['var'] == 'alias' else '/' + ln['var'] if ln['var'] else '')}",
                       f"logged decode rejected by Trace_Numeric ({clause[0]}): bits {''.join(map(str, ln['b']))} -> {ln['r']} class {ln['c']}",
                       {"k": ln["k"], "b": ln["b"], "e": ln["e"], "o": ln["o"], "off": ln["off"], "var": ln["var"]})
     ctx.sample({"direction": "code->spec", **{k: lines[0][k] for k in ("k", "e", "o", "off", "r", "c", "adv")},
